@@ -42,10 +42,11 @@ ASSUMPTIONS = [
 
 REQUIRED_CLASSES = ["node:builtin:abs", "node:builtin:round", "node:builtin:round+params", "node:builtin:divmod+params",
                     "node:call", "node:call+kwargs", "node:computed-key", "node:literal-expr", "node:un:-", "node:un:~",
-                    "node:eq", "node:bin:arith", "follow-up:orig:setv", "follow-up:copy:setv", "follow-up:both:sete",
+                    "node:eq", "node:bin:arith", "fresh-vs-restored-node-compared", "follow-up:orig:setv", "follow-up:copy:setv", "follow-up:both:sete",
                     "default-container:items-and-attributes-mixed", "default-container:frozen-when-pickled",
                     "default-container:empty-when-pickled",
-                    "default-container:setter-generated-before-pickling"]
+                    "default-container:setter-generated-before-pickling", "default-container:cycle:self",
+                    "default-container:cycle:child-parent", "default-container:cycle:through-list"]
 
 TEMPLATES = ["abs", "round0", "round1", "round_ref", "divmod", "divmod_ref", "floor", "ceil", "trunc", "neg", "pos",
              "invert", "eq", "neq", "litexpr", "call_pos", "call_kw", "call_kw_ref", "comp_item", "bitand", "shift",
@@ -206,6 +207,41 @@ def node_classes(model):
     return out
 
 
+def culprit_hash(ast, refs, rest):
+    """class of the smallest restored sub-node whose hash differs from the freshly built one"""
+    from xdeps import refs as R
+
+    def kids(o):
+        # by class: refs answer hasattr() for ANY name (attribute access builds a new ref)
+        if isinstance(o, R.BinOpExpr):
+            out = [o._lhs, o._rhs]
+        elif isinstance(o, R.UnaryOpExpr):
+            out = [o._arg]
+        elif isinstance(o, R.BuiltinRef):
+            out = [o._arg] + list(o._params)
+        elif isinstance(o, R.CallRef):
+            out = [o._func] + list(o._args) + [v for _, v in o._kwargs]
+        elif isinstance(o, R.MutableRef):
+            out = [o._owner, o._key]
+        else:
+            out = []
+        return [k for k in out if E.is_ref(k)]
+    try:
+        fresh = E.build(ast, refs, W.ATTR_ITEM_LABELS)
+    except Exception:
+        return type(rest).__name__
+    fk, rk = kids(fresh), kids(rest)
+    if len(fk) == len(rk):
+        for f, r in zip(fk, rk):
+            try:
+                if hash(f) != hash(r) or not (f == r):
+                    sub = E.unbuild(f)
+                    return culprit_hash(sub, refs, r) if sub[0] != "unknown" else type(r).__name__
+            except Exception:
+                return type(r).__name__
+    return type(rest).__name__
+
+
 def defs_of(mgr):
     return {str(t.taskid): E.unbuild(t.expr) for t in mgr.tasks.values() if hasattr(t, "expr")}
 
@@ -273,6 +309,30 @@ def exec_case(ctx, case):
                 return finish(Failure("C12:expression-structure-differs",
                                       dict(where, target=k, original=E.render(s1[k]) if s1[k][0] != "unknown" else s1[k],
                                            copy=str(s2.get(k)))), True)
+        # ---- a restored node is the SAME reference as one built afresh on the copy: equal, equally hashed, and
+        # found by a lookup (targets are the keys of Manager.tasks and of the four indices)
+        for tloc, ast in model.defs.items():
+            try:
+                fresh_t = E.build_loc(W.ast_loc(tloc), twin.refs, W.ATTR_ITEM_LABELS)
+                fresh = E.build(ast, twin.refs, W.ATTR_ITEM_LABELS)
+            except Exception:
+                continue
+            if fresh_t not in m2.tasks:
+                return finish(Failure("C12:restored-target-not-found-by-fresh-ref", dict(where, target=str(fresh_t))), True)
+            rest = m2.tasks[fresh_t].expr
+            if not E.is_ref(fresh) or not E.ast_equal(E.unbuild(fresh), E.unbuild(rest)):
+                continue
+            classes.add("fresh-vs-restored-node-compared")
+            bad = None
+            if not (fresh == rest):
+                bad = "not equal"
+            elif hash(fresh) != hash(rest):
+                bad = "hash differs"
+            elif {rest: 1}.get(fresh) != 1:
+                bad = "dict lookup fails"
+            if bad:
+                return finish(Failure(f"C12:restored-node-is-not-the-fresh-node:{culprit_hash(ast, twin.refs, rest)}",
+                                      dict(where, target=str(fresh_t), expression=str(rest), what=bad)), True)
         if set(map(str, real.m.tasks)) != set(map(str, m2.tasks)) or len(real.m.tasks) != len(m2.tasks):
             return finish(Failure("C12:task-set-differs", where), True)
         # ---- consistency of the copy
@@ -393,6 +453,9 @@ def dc_cases(draw):
         c["empty_when_pickled"] = True
         c["after"] = [dict(s, who="both") for s in c["before"]] + c["after"]
         c["before"] = []
+    # the container may be reachable from itself (a namespace tree whose children keep a link to their parent): still a
+    # picklable container
+    c["cycle"] = draw(st.sampled_from([None, None, "self", "child-parent", "through-list"]))
     c["frozen"] = draw(st.integers(0, 3)) == 0 and not c.get("empty_when_pickled")
     c["genfun"] = access() if draw(st.integers(0, 2)) == 0 else None
     extra = []
@@ -439,8 +502,36 @@ def dc_exec(ctx, case):
 
     def views(r):
         o = r._owner
-        return ({k: repr(v) for k, v in sorted(dict(o).items())},
-                {k: repr(v) for k, v in sorted(vars(o).items())})
+        a = {k: repr(v) for k, v in sorted(dict(o).items()) if k != "zz"}
+        b = {k: repr(v) for k, v in sorted(vars(o).items()) if k != "zz"}
+        ch = dict(o).get("zz")
+        if isinstance(ch, dict):
+            # the child namespace (compared between original and copy like everything else; whether its definition
+            # follows an assignment made through the OTHER view of the parent is aliasing and not judged)
+            a["zz"] = repr({k: v for k, v in sorted(dict(ch).items()) if k != "parent"})
+            b["zz"] = repr({k: v for k, v in sorted(vars(ch).items()) if k != "parent"})
+        return a, b
+
+    def cycle_ok(r):
+        """the link structure that was put in before pickling is there (identity, not a copy), the child is an AttrDict
+        whose two views are one"""
+        o = r._owner
+        kind = case.get("cycle")
+        if kind is None:
+            return None
+        try:
+            if kind == "self":
+                return None if o["zz"] is o and o.zz is o else "container does not hold ITSELF any more"
+            if kind == "through-list":
+                return None if o["zz"][1] is o and o["zz"][0] == 5 else "list member is not the container itself"
+            ch = o["zz"]
+            if not (ch["parent"] is o and o.zz is ch):
+                return "child's parent link does not lead back to the container"
+            if vars(ch) is not ch or type(ch).__name__ != "AttrDict":
+                return "child AttrDict: item view and attribute view detached"
+        except Exception as e:
+            return f"raises {type(e).__name__}: {e}"[:160]
+        return None
 
     def text(stm):
         if "call" in stm:
@@ -463,6 +554,21 @@ def dc_exec(ctx, case):
     else:
         for k, v in case["init"].items():
             r[k] = v
+    if case.get("cycle"):
+        from xdeps.utils import AttrDict
+        classes.append("default-container:cycle:" + case["cycle"])
+        rendered["cycle"] = {"self": "r['zz'] = <the container itself>", "through-list": "r['zz'] = [5, <the container itself>]",
+                             "child-parent": "r['zz'] = AttrDict(parent=<the container itself>); r['zz']['twice_a'] = r['a'] * 2"}[case["cycle"]]
+        if case["cycle"] == "self":
+            r._owner["zz"] = r._owner
+        elif case["cycle"] == "through-list":
+            r._owner["zz"] = [5, r._owner]
+        else:
+            r._owner["zz"] = AttrDict(parent=r._owner, twice_a=0)
+            if not case.get("empty_when_pickled"):
+                r["zz"]["twice_a"] = r["a"] * 2
+            else:
+                case = dict(case, cycle="child-parent(no definition)")
     try:
         for stm in case["before"]:
             run(r, stm)
@@ -500,6 +606,13 @@ def dc_exec(ctx, case):
         ctx.stats.case(rendered, nt, classes)
         return Failure("C12:default-container:contents-differ", dict(rendered, step="after the round trip",
                        original=views(r), copy=views(r2)))
+    for who, rr in (("original", r), ("copy", r2)):
+        why = cycle_ok(rr)
+        if why:
+            ctx.stats.case(rendered, nt, classes)
+            return Failure("C12:default-container:self-reference-not-restored", dict(rendered, step="after the round trip", manager=who, what=why))
+    if case.get("cycle") and r2._owner is r._owner:
+        return Failure("C12:container-shared", dict(rendered))
     for i, stm in enumerate(case["after"]):
         before = (views(r), views(r2))
         outs = []
@@ -529,6 +642,11 @@ def dc_exec(ctx, case):
                 run(r2 if stm["who"] == "orig" else r, stm)
             except Exception:
                 pass
+    for who, rr in (("original", r), ("copy", r2)):
+        why = cycle_ok(rr)
+        if why:
+            ctx.stats.case(rendered, nt, classes)
+            return Failure("C12:default-container:self-reference-not-restored", dict(rendered, step="after the follow-ups", manager=who, what=why))
     for mm in (m, m2):
         try:
             mm.verify()
